@@ -674,21 +674,7 @@ def sig_for(rule, bs, got, exp):
 def buf_stage(ctx):
     """multi-byte units arriving in pieces: harness/c10_buf.cpp runs the unit rules on the same bytes through memory_input
     and through buffer_input with readers delivering 1, 2, 3 or 5 bytes per call (result and consumed count must agree)"""
-    exe = vlib.build_cpp([os.path.join(vlib.VERIF, "harness", "c10_buf.cpp")], "c10_buf", flags=["-O1"], compiler="g++")
-    rc, out = vlib.sh([exe], timeout=600)
-    done = [l for l in out.split("\n") if l.startswith("DONE ")]
-    if rc != 0 or not done:
-        ctx.violation("c10 buffer stage crashed", "harness/c10_buf.cpp ended abnormally: " + out[-400:], {"mode": "buf"})
-        return
-    seen = set()
-    for l in [l for l in out.split("\n") if l.startswith("BAD ")]:
-        rule = l[4:].split(" on ")[0]
-        if rule in seen:
-            continue
-        seen.add(rule)
-        ctx.violation("unit delivered in pieces: %s differs from memory_input" % rule, l[4:500], {"mode": "buf", "line": l[:1000]})
-    n = int(done[0].split()[1])
-    ctx.cover(evaluations=n, distinct=n, validated=0, buffer_stage_cases=n)
+    vlib.bad_done_stage(ctx, "c10_buf.cpp", "c10_buf", "unit delivered in pieces differs from memory_input", "buf")
 
 
 def run(ctx):
@@ -912,21 +898,7 @@ def replay(j):
     """bin/check --replay <file>: re-run the stored input on the current tree and re-judge it"""
     rp = j["replay"]
     if rp.get("mode") == "buf":
-        class _C:
-            def __init__(self):
-                self.v = []
-
-            def violation(self, sig, what, r):
-                self.v.append(what)
-
-            def cover(self, **k):
-                pass
-        c = _C()
-        buf_stage(c)
-        for w in c.v[:6]:
-            print("REPLAY:", w[:300])
-        print("VIOLATION property=C10 replay=(replayed)" if c.v else "no violation on the current tree")
-        return 1 if c.v else 0
+        return vlib.replay_bad_done("C10", "c10_buf.cpp", "c10_buf", "unit delivered in pieces differs from memory_input", "buf")
     impl = vlib.build_cpp([os.path.join(vlib.VERIF, "harness", "c10_impl.cpp")], "c10_impl", flags=["-O1"])
     tmpdir = os.path.join(vlib.BUILD, "c10replay-%d" % os.getpid())
     os.makedirs(tmpdir, exist_ok=True)
